@@ -103,6 +103,10 @@ var (
 	tB500  = &tmpl{name: "B500", cpuReq: 500, cpuLim: 1000, memLim: 200 * miB}
 	tB1500 = &tmpl{name: "B1500", cpuReq: 1500, cpuLim: 2000, memLim: 200 * miB}
 	tB200  = &tmpl{name: "B200", cpuReq: 200, cpuLim: 0, memLim: 0}
+	tB3000 = &tmpl{name: "B3000", cpuReq: 3000, cpuLim: 4000, memLim: 200 * miB}
+	tB5000 = &tmpl{name: "B5000", cpuReq: 5000, cpuLim: 6000, memLim: 200 * miB}
+	tB9000 = &tmpl{name: "B9000", cpuReq: 9000, cpuLim: 10000, memLim: 200 * miB}
+	tB600  = &tmpl{name: "B600", cpuReq: 600, cpuLim: 0, memLim: 0}
 	tBE    = &tmpl{name: "BE"}
 	tBEpin = &tmpl{name: "BEpin", initCpus: "0,15", initMems: "0,3"}
 	tG2pin = &tmpl{name: "G2pin", cpuReq: 2000, cpuLim: 2000, memLim: 100 * miB, initCpus: "0,15", initMems: "0,3"}
@@ -163,6 +167,19 @@ func taScenarios(thorough bool) []*scenario {
 	add("ta/avail/G2-G1500-BE", machine16(), []cfgSpec{taCfg("avail", taAvailable("cpuset:0-6,8-14"), taReserved("cpuset:0"))}, pods(tG2, tG1500, tBE), menu{stop: true, remove: true}, nil)
 	add("ta/8cpu/G3-B1500-B500", machine8(), std, pods(tG3, tB1500, tB500), menu{stop: true, remove: true}, nil)
 	add("ta/dies/G2-G4-B500", machine16dies(), std, pods(tG2, tG4, tB500), menu{stop: true, remove: true}, nil)
+	// shared containers in inner pools (too big for a NUMA node / a socket) next to exclusive grants below them
+	add("ta/inner/B5000-G2-B500", machine16(), std, pods(tB5000, tG2, tB500), menu{stop: true, remove: true}, nil)
+	add("ta/inner/B9000-G2-G1500", machine16(), std, pods(tB9000, tG2, tG1500), menu{stop: true, remove: true}, nil)
+	// the root pool tighter than the sockets: a root-level shared grant, then leaf pools filled to the brim
+	add("ta/brim/B9000-B3000x3", machine16(), std, pods(tB9000, tB3000, tB3000, tB3000), menu{stop: true}, nil)
+	// reserved-class containers that exceed the reserved capacity (fallback to shared CPUs)
+	add("ta/rsv-overflow/KS600-KS600-B500", machine16(), std,
+		[]podSpec{pod1("ks1", "kube-system", "Burstable", tB600, nil), pod1("ks2", "kube-system", "Burstable", tB600, nil), pods(tB500)[0]}, menu{stop: true, remove: true}, nil)
+	// annotated preferences: shared-preferring Guaranteed, hidden hyperthreads, reserved annotation outside kube-system
+	add("ta/annotated/G2shared-G2hideht-B500rsv", machine16(), std,
+		[]podSpec{pod1("a", "default", "Guaranteed", tG2, map[string]string{annPreferShared + "/pod": "true"}),
+			pod1("b", "default", "Guaranteed", tG2, map[string]string{annHideHT + "/container.c": "true"}),
+			pod1("c", "default", "Burstable", tB500, map[string]string{annPreferRsvd: "true"})}, menu{stop: true, remove: true}, nil)
 	if thorough {
 		add("ta/G2500-G1-B500-KS", machine16(), std, append(pods(tG2500, tG1, tB500), ks), menu{stop: true, remove: true, sync: true}, nil)
 		add("ta/noht/G2-G2-G2-B500", machine8noht(), std, pods(tG2, tG2, tG2, tB500), menu{stop: true, remove: true}, nil)
@@ -299,8 +316,21 @@ func blScenarios(thorough bool) []*scenario {
 	add("bl/annotated-avail-reconf", machine16(), []cfgSpec{blCfg("ann", ann, blAvailable("cpuset:0-13")), blCfg("ann2", ann2, blAvailable("cpuset:0-13"))},
 		[]podSpec{nsPod("a", "n1", tG1, map[string]string{annBalloon: "pinned"}), nsPod("b", "n2", tB500, map[string]string{annBalloon: "pinned"}), nsPod("c", "big", tG2, nil)},
 		menu{stop: true, remove: true, reconf: []int{0, 1}})
+	// 5. several balloons with hidden hyperthreads that share idle CPUs: one event re-pins more than one balloon
+	noht := []*blcfg.BalloonDef{
+		{Name: "noht", Namespaces: []string{"noht"}, MinCpus: 1, MaxCpus: 4, PreferNewBalloons: true, HideHyperthreads: bptr(true), ShareIdleCpusInSame: blcfg.CPUTopologyLevelPackage},
+	}
+	add("bl/noht-x3-share-package", machine16(), []cfgSpec{blCfg("noht", noht)},
+		[]podSpec{nsPod("a", "noht", tG2, nil), nsPod("b", "noht", tG2, nil), nsPod("c", "noht", tG2, nil)}, lm)
+	// 6. spreading pods over a bounded number of balloons, with a load class
+	spread := []*blcfg.BalloonDef{
+		{Name: "spread", Namespaces: []string{"sp"}, MinCpus: 1, MaxCpus: 3, MaxBalloons: 2, PreferSpreadingPods: true, Loads: []string{"l2"}, ShareIdleCpusInSame: blcfg.CPUTopologyLevelNuma},
+	}
+	add("bl/spread-loads", machine16(), []cfgSpec{blCfg("spread", spread, func(c *cfgapi.BalloonsPolicy) {
+		c.Spec.Config.LoadClasses = []blcfg.LoadClass{{Name: "l2", Level: blcfg.CPUTopologyLevelCore}}
+	})}, []podSpec{nsPod("a", "sp", tG1, nil), nsPod("b", "sp", tG1, nil), nsPod("c", "sp", tB500, nil)}, lm)
 	if thorough {
-		// 5. isolated CPUs present, groupBy, single socket
+		// 7. isolated CPUs present, groupBy, single socket
 		grp := []*blcfg.BalloonDef{
 			{Name: "grp", Namespaces: []string{"*"}, GroupBy: "${pod/labels/app}", MaxCpus: 3, ShareIdleCpusInSame: blcfg.CPUTopologyLevelSystem},
 		}
